@@ -12,7 +12,7 @@ ASSUMPTIONS = ["compiler flags/versions form an open set: gcc 12 and clang 14 at
                "the 32-bit word configuration is obtained on x86-64 with -U__SIZEOF_INT128__ (defs.h then selects B_PER_W = 32)"]
 BUDGET = {"quick": 360, "thorough": 3000}
 GEN = ("rel", "relfast", "O0", "O2a", "clangO2", "w32rel", "w32fast")
-BASH = ("bash32", "bashsse2", "bashavx2", "bashavx512", "rel", "w32rel")
+BASH = ("bash32", "bash32a", "bashsse2", "bashavx2", "bashavx512", "rel", "w32rel")
 
 
 def tests(tier):
